@@ -38,7 +38,9 @@ graph_build = importlib.import_module("cnfgen.clitools.graph_build")
 from cnfgen.clitools.cmdline import CLIError
 
 RULE = ("clirun: randkcnf/randkxor [-p] over k,n,m incl. dense and impossible requests; kcolor over gnp N p [t] / empty N / "
-        "complete N with plantclique/addedges/splitedges; each with --seed/-S {0,1,-5,2^31,random}, without seed, with -q; "
+        "complete N with plantclique/addedges/splitedges; kcolor/tseitin (6 charge words, shortcut N [d])/domset/kclique over "
+        "gnm/gnd/gnp with modifiers; php [--functional] [--onto] over glrd/glrm/glrp/regular/empty with plantbiclique/addedges; "
+        "-T chains of shuffle/xorcomp/majcomp/xor/or/maj/flip (valid and invalid) after 6 base formulas; each with --seed/-S {0,1,-5,2^31,random}, without seed, with -q; "
         "distinct = distinct argv; phasetrace: every random sub-command x tool")
 TRUSTED_EXTRA = ["tools/extract_phases.py (ast translator: phase order of cli(), call sites of random, seeded generators, "
                  "static hazards -> Generated/Phases.lean)",
@@ -48,6 +50,7 @@ ASSUMPTIONS = ["random.seed(s) installs a state that is a function of s only (si
                "given (checked on every gnp case: the recorded draws are replayed by the model)"]
 
 UNIT = 1 << 53
+VOC_G, VOC_F, VOC_NX, VOC_SH = 0, 1, 2, 3       # vocabularies of `CliRun.RDraw`
 _mod_random = random
 
 
@@ -63,6 +66,8 @@ class Recording:
         self.unknown = []
         self.shuffle_draws = []     # every choice / shuffle in the vocabulary of the Shuffle model (None = no encoding)
         self.allow_shuffle = False
+        self.stream = []       # ("seed", a) | ("draw", phase, [vocabulary] + encoding or None): ONE stream, in call order
+        self.force = None
 
     # -- installation
     def __enter__(self):
@@ -72,8 +77,27 @@ class Recording:
         rec = self
 
         class Shim(_mod_random.Random):
+            """what networkx gets in place of `random._inst`: the same generator (the saved functions of the module
+            ARE the bound methods of `random._inst`), every call recorded in the vocabulary of Rand/NxDraws.lean"""
             def random(self_inner):
-                return rec.r_random()
+                rec.force = VOC_G
+                try:
+                    return rec.r_random()
+                finally:
+                    rec.force = None
+
+            def choice(self_inner, seq):
+                v = rec.saved["choice"](seq)
+                ok_ = list(seq) == list(range(len(seq)))
+                rec._push([VOC_NX, 1, v] if ok_ else None)
+                rec.events.append(("draw", "g" if rec.in_parse else "f", None, None))
+                return v
+
+            def shuffle(self_inner, x):
+                before = list(x)
+                rec.saved["shuffle"](x)
+                rec._push([VOC_NX, 2] + enc_list(before) + enc_list(x))
+                rec.events.append(("draw", "g" if rec.in_parse else "f", None, None))
 
             def getrandbits(self_inner, k):
                 rec.unknown.append("getrandbits")
@@ -86,6 +110,12 @@ class Recording:
 
             def gnp_random_graph(self_inner, n, p):
                 return networkx.gnp_random_graph(n, p, seed=Shim())
+
+            def gnm_random_graph(self_inner, n, m):
+                return networkx.gnm_random_graph(n, m, seed=Shim())
+
+            def random_regular_graph(self_inner, d, n):
+                return networkx.random_regular_graph(d, n, seed=Shim())
         self.saved_nx = graph_build.networkx
         graph_build.networkx = NxShim()
         # parse window of cnfgen / pbgen
@@ -112,11 +142,33 @@ class Recording:
         return False
 
     # -- wrappers
-    def _add(self, genc, fenc):
+    def _caller_vocab(self):
+        """the vocabulary of the sampler model that makes this call: by the module of the code under test that called
+        `random.<f>` (graphs.py / graph_build.py: graph samplers; transformations/shuffle.py: Shuffle; else formula)"""
+        if self.force is not None:
+            return self.force
+        f = sys._getframe(1)
+        while f is not None and f.f_code.co_filename == __file__:
+            f = f.f_back
+        name = f.f_code.co_filename.replace("\\", "/") if f is not None else ""
+        if name.endswith("cnfgen/graphs.py") or name.endswith("clitools/graph_build.py"):
+            return VOC_G
+        if name.endswith("transformations/shuffle.py"):
+            return VOC_SH
+        return VOC_F
+
+    def _push(self, enc):
+        self.stream.append(("draw", "g" if self.in_parse else "f", enc))
+
+    def _add(self, genc, fenc, shenc=None):
         self.events.append(("draw", "g" if self.in_parse else "f", genc, fenc))
+        v = self._caller_vocab()
+        enc = {VOC_G: genc, VOC_F: fenc, VOC_SH: shenc}[v]
+        self._push([v] + enc if enc is not None else None)
 
     def r_seed(self, a=None, *rest, **kw):
         self.events.append(("seed", a))
+        self.stream.append(("seed", a))
         return self.saved["seed"](a, *rest, **kw)
 
     def r_sample(self, population, k, **kw):
@@ -142,7 +194,7 @@ class Recording:
     def r_choice(self, seq):
         v = self.saved["choice"](seq)
         i = next(j for j, x in enumerate(seq) if x is v or x == v)
-        self._add(None, [1, len(seq), i])
+        self._add(None, [1, len(seq), i], [0, v] if isinstance(v, int) else None)
         self.shuffle_draws.append([0, v] if isinstance(v, int) else None)
         return v
 
@@ -160,9 +212,12 @@ class Recording:
     def r_shuffle(self, x):
         r = self.saved["shuffle"](x)
         # vocabulary of Trans/Shuffle.lean: the content of the list afterwards
-        self.shuffle_draws.append([1] + enc_list(x) if all(isinstance(v, int) for v in x) else None)
+        shenc = [1] + enc_list(x) if all(isinstance(v, int) for v in x) else None
+        self.shuffle_draws.append(shenc)
         self.events.append(("shuffle", len(self.shuffle_draws) - 1))
-        if not self.allow_shuffle:
+        in_shuffle = self._caller_vocab() == VOC_SH
+        self.stream.append(("draw", "g" if self.in_parse else "f", [VOC_SH] + shenc if shenc is not None and in_shuffle else None))
+        if not self.allow_shuffle and not in_shuffle:
             self.unknown.append("shuffle")
         return r
 
@@ -187,6 +242,27 @@ def split_streams(events):
     return r0, rs, seeds, bad
 
 
+def split_stream(stream):
+    """(rng0, sigma, seeds, bad, ng, nf): draws before the first random.seed belong to the initial state, the others to
+    the state random.seed installed (cli() seeds a second time after parsing: the state answers the calls of the parse
+    window and, from the start again, the calls made afterwards: one ordered stream for each of the two)"""
+    r0, rs, seeds, bad, ng, nf = {"g": [], "f": []}, {"g": [], "f": []}, [], None, 0, 0
+    for e in stream:
+        if e[0] == "seed":
+            seeds.append(e[1])
+            continue
+        _, phase, enc = e
+        if phase == "g":
+            ng += 1
+        else:
+            nf += 1
+        if enc is None:
+            bad = "a draw of the {} phase has no encoding in the vocabulary of its caller".format(phase)
+            continue
+        (rs if seeds else r0)[phase].append(enc)
+    return r0, rs, seeds, bad, ng, nf
+
+
 def enc_stream(ds):
     out = [len(ds)]
     for d in ds:
@@ -206,7 +282,7 @@ def is_floatable(tok):
         return False
 
 
-def enc_world(argv):
+def enc_world(argv, files=()):
     toks = []
     for t in argv:
         if is_floatable(t) and t not in toks:
@@ -231,7 +307,14 @@ def enc_world(argv):
     hdr = [len(base)]
     for k, v in base:
         hdr += enc_str(k) + enc_str(v)
-    return tab + ftab + hdr + [1 if graphs.has_dot_library() else 0, 40]
+    return tab + ftab + hdr + [1 if graphs.has_dot_library() else 0, 40] + enc_files(files)
+
+
+def enc_files(files):
+    out = [len(files)]
+    for k, v in files:
+        out += enc_str(k) + enc_str(v)
+    return out
 
 
 def enc_argv(argv):
@@ -277,13 +360,11 @@ class RunCase(Case):
         if self._req is not None:
             return
         out, rec = run_real(self._argv, 4242)
-        r0, rs, seeds, bad = split_streams(rec.events)
+        r0, rs, seeds, bad, ng, nf = split_stream(rec.stream)
         self._state.update(out=out, seeds=seeds, bad=bad, unknown=list(rec.unknown), events=rec.events)
         self._req = req("clirun", enc_str(self._argv[0]), enc_argv(self._argv), enc_world(self._argv), enc_rng(r0), enc_rng(rs))
         if out[0] == "text":
-            ng = sum(1 for e in rec.events if e[0] == "draw" and e[1] == "g")
-            nf = sum(1 for e in rec.events if e[0] == "draw" and e[1] == "f")
-            self._ans = ok("T {} {} ".format(ng, nf) + " ".join(str(ord(c)) for c in out[1]))
+            self._ans = ok("T {} {} ".format(ng, nf) + " ".join(str(ord(c)) for c in out[1]) + " W 0")
         else:
             self._ans = ok("E " + out[1])
 
@@ -512,11 +593,103 @@ def graph_cmds(rng, tier):
     return out
 
 
+def simple_specs(rng, tier):
+    """random simple graphs through networkx (gnm: seed.choice pairs; gnd: seed.shuffle of the stubs, with restarts) and the
+    in-house ones, with modifiers"""
+    specs = [["gnm", "5", "4"], ["gnm", "6", "9", "plantclique", "3"], ["gnm", "4", "6"], ["gnm", "1", "0"], ["gnm", "5", "0"],
+             ["gnm", "4", "7"], ["gnm", "0", "0"], ["gnm", "5", "3", "addedges", "2", "splitedges", "1"], ["gnm", "x", "2"],
+             ["gnd", "6", "3"], ["gnd", "4", "2"], ["gnd", "5", "3"], ["gnd", "4", "4"], ["gnd", "8", "3", "addedges", "2"],
+             ["gnd", "5", "2", "plantclique", "3"], ["gnd", "6", "0"], ["gnd", "7", "4", "splitedges", "2"], ["gnd", "6"],
+             ["gnp", "5", ".5"], ["gnp", "4", ".5", "2"], ["empty", "4", "addedges", "3"], ["complete", "4"]]
+    if tier == "thorough":
+        for _ in range(20):
+            n = rng.randint(1, 9)
+            sp = rng.choice([["gnm", str(n), str(rng.randint(0, n * (n - 1) // 2 + 1))], ["gnd", str(n), str(rng.randint(0, n))],
+                             ["gnd", str(2 * rng.randint(1, 5)), str(rng.randint(1, 5))]])
+            for opt in rng.sample(["plantclique", "addedges", "splitedges"], rng.randint(0, 2)):
+                sp = sp + [opt, str(rng.randint(0, 3))]
+            specs.append(sp)
+    return specs
+
+
+def bip_specs(rng, tier):
+    specs = [["glrd", "4", "3", "2"], ["glrd", "3", "3", "3"], ["glrd", "3", "2", "0"], ["glrd", "3", "2", "3"],
+             ["glrm", "3", "3", "4"], ["glrm", "3", "2", "6"], ["glrm", "4", "4", "2", "addedges", "2"], ["glrm", "2", "2", "5"],
+             ["regular", "4", "4", "2"], ["regular", "6", "3", "2"], ["regular", "3", "2", "1"], ["regular", "4", "2", "1"],
+             ["glrp", "3", "3", ".5"], ["glrp", "3", "2", "1", "plantbiclique", "2", "1"], ["glrp", "2", "3", "0"],
+             ["glrd", "4", "4", "1", "plantbiclique", "2", "2", "addedges", "3"], ["empty", "3", "2", "addedges", "4"],
+             ["empty", "2", "2"], ["glrd", "4", "3"], ["glrd", "0", "3", "1"]]
+    if tier == "thorough":
+        for _ in range(16):
+            l, r = rng.randint(1, 6), rng.randint(1, 6)
+            sp = rng.choice([["glrd", str(l), str(r), str(rng.randint(0, r))], ["glrm", str(l), str(r), str(rng.randint(0, l * r))],
+                             ["regular", str(l), str(r), str(rng.randint(0, r))], ["glrp", str(l), str(r), str(rng.choice([.25, .5, .75]))]])
+            if rng.random() < .4:
+                sp += ["addedges", str(rng.randint(0, 3))]
+            specs.append(sp)
+    return specs
+
+
+def family_cmds(rng, tier):
+    """the other families of the fragment on random graphs"""
+    S, B = simple_specs(rng, tier), bip_specs(rng, tier)
+    charges = ["random", "randomodd", "randomeven", "first", "zero", "one"]
+    out = []
+    for i, sp in enumerate(S):
+        fam = i % 4
+        if fam == 0 or tier == "thorough":
+            out.append(["kcolor", str(rng.choice([2, 3]))] + sp)
+        if fam == 1 or tier == "thorough":
+            out.append(["tseitin", charges[i % len(charges)]] + sp)
+        if fam == 2 or tier == "thorough":
+            out.append(["domset"] + (["--alternative"] if i % 3 == 0 else []) + [str(rng.choice([1, 2]))] + sp)
+        if fam == 3 or tier == "thorough":
+            out.append(["kclique", str(rng.choice([2, 3]))] + sp)
+    for i, c in enumerate(charges):
+        out.append(["tseitin", c, "gnm", "5", "5"])
+    out += [["tseitin", "random", "gnd", "6", "3"], ["tseitin", "randomodd", "gnp", "5", ".6", "addedges", "1"],
+            ["tseitin", "6", "3"], ["tseitin", "5"], ["tseitin", "5", "3"], ["tseitin", "4", "4"], ["tseitin", "8"],
+            ["tseitin", "bogus", "gnm", "3", "2"], ["tseitin", "random", "empty", "3"], ["domset", "0", "gnm", "4", "3"],
+            ["kclique", "-1", "gnd", "4", "2"]]
+    opts = [[], ["--functional"], ["--onto"], ["--functional", "--onto"]]
+    for i, sp in enumerate(B):
+        out.append(["php"] + opts[i % 4] + sp)
+    return out
+
+
+def chain_cmds(rng, tier):
+    """`-T` chains: the random transformations (and some deterministic ones between them) after random formulas"""
+    bases = [["randkcnf", "3", "6", "5"], ["kcolor", "2", "gnm", "4", "4"], ["randkxor", "2", "5", "3"], ["tseitin", "random", "gnd", "4", "2"],
+             ["php", "glrd", "3", "3", "2"], ["kcolor", "2", "gnp", "4", ".5", "addedges", "1"]]
+    chains = [["-T", "shuffle"], ["-T", "xorcomp", "4", "2"], ["-T", "majcomp", "5", "3"], ["-T", "shuffle", "-T", "shuffle"],
+              ["-T", "xorcomp", "5", "2", "-T", "shuffle"], ["-T", "shuffle", "-T", "majcomp", "4"], ["-T", "xor", "2", "-T", "shuffle"],
+              ["-T", "xorcomp", "4", "2", "-T", "majcomp", "3", "-T", "shuffle"], ["-T", "flip", "-T", "xorcomp", "3", "1"],
+              ["-T", "or", "2", "-T", "majcomp", "6", "3", "-T", "flip"], ["-T", "xorcomp", "2", "3"], ["-T", "majcomp", "0"],
+              ["-T"], ["-T", "shuffle", "-T"], ["-T", "xorcomp", "4", "0"], ["-T", "flip", "-T", "majcomp", "4"]]
+    out = []
+    for i, ch in enumerate(chains):
+        for j, b in enumerate(bases):
+            if tier == "thorough" or (i + j) % 3 == 0:
+                out.append(b + ch)
+    out.append(["randkcnf", "2", "0", "0", "-T", "xorcomp", "3", "2"])      # no variables: obtain_glrd refuses L = 0
+    return out
+
+
 def clirun_cases(ctx):
     rng = common.sub_rng(ctx["seed"], "C07_run", "clirun")
     tier = ctx["tier"]
     prefixes = seed_prefixes(rng, tier)
     out = []
+    # the extended fragment: every command with a seed; every third one also without
+    for i, c in enumerate(family_cmds(rng, tier) + chain_cmds(rng, tier)):
+        p = prefixes[1 + i % (len(prefixes) - 1)]
+        tag = c[0] + ("+T" if "-T" in c else "")
+        out.append(RunCase(["cnfgen"] + p + c, cls=tag + ":seed"))
+        if i % 3 == 0:
+            out.append(RunCase(["cnfgen"] + c, cls=tag + ":noseed"))
+        if (tier == "thorough" or i % 5 == 0) and "-T" not in c:
+            out.append(RunCase(["pbgen"] + p + c, cls="pbgen:" + tag + ":seed"))
+    out.append(RunCase(["pbgen", "--seed", "3", "kcolor", "2", "gnm", "3", "2", "-T", "shuffle"], cls="pbgen:+T"))
     cmds = formula_cmds(rng, tier) + graph_cmds(rng, tier)
     for i, c in enumerate(cmds):
         pres = prefixes if tier == "thorough" else ([prefixes[0]] if i % 2 else []) + [prefixes[1 + i % (len(prefixes) - 1)]]
